@@ -1,22 +1,34 @@
+from pyvc.tasks_engine import TasksEngine
 ID = "C01"
 LEVEL = "other"
-CONTRACT_MODULES = ["contracts.sorting", "contracts.refcount", "contracts.tasks"]
-FUNCTIONS = ["toposort", "Manager.find_taskids", "Manager.find_tasks", "Manager.register", "Manager.unregister"]
+CONTRACT_MODULES = ["contracts.sorting", "contracts.refcount", "contracts.tasks", "contracts.tasks_proto"]
+FUNCTIONS = ["_dfs", "toposort", "Manager.find_taskids", "Manager.find_tasks", "Manager.register", "Manager.unregister",
+             "Manager.run_tasks", "Manager.run_tasks@consistency", "Manager.set_value", "ExprTask.run", "ExprTask.__init__"]
 RAC = "rac/c01.py"
 RAC_BUDGET = {"quick": 70, "thorough": 1200}
-DESIGN_REF = "DESIGN.md section 4, C01"
-TECHNIQUE = "contract-based deductive verification of the functions an update is composed of (pyvc, z3/cvc5) + run-time contracts against a pull-model oracle on exhaustive short histories"
-TRUSTED = ["pyvc container library models", "counting lemma / finite-sum axioms (see C03)", "z3 / cvc5", "Cython compilation of refs.py"]
+DESIGN_REF = "DESIGN.md section 4, C01 (and section 0)"
+TECHNIQUE = ("contract-based deductive verification of every function one assignment is composed of and of the composition step "
+             "(pyvc: running a schedule with the proved find_tasks postcondition re-establishes consistency of every definition, "
+             "under the heap frame axioms and Acyc; z3/cvc5) + run-time contracts against a pull-model oracle on exhaustive short histories")
+TRUSTED = ["heap frame axioms (DESIGN section 3): a store to a task's target changes neither an expression none of whose reported "
+           "dependencies it writes (C05: dependencies == locations read; tree-shaped data) nor another task's target, and is read back",
+           "virtual callees: BaseRef._get_value, MutableRef._set_value, Task.run (= ExprTask.run for expression tasks, proved)",
+           "pyvc container / iterator library models", "counting lemma / finite-sum axioms (see C03)", "z3 / cvc5", "Cython compilation of refs.py"]
 ASSUMPTIONS = [
     "tree-shaped user data, no computed key aliasing a constant key, containers not mutated behind the manager's back (excluded by the statement)",
-    "Acyc: the declared ordering graph has no cycle of length >= 2 among triggered tasks (known finding K1 when violated by siblings of one nested container)",
-    "user functions of FunctionTask are deterministic and do not call back into the manager",
+    "Acyc: in the declared ordering graph no task feeds itself and no edge closes a cycle -- violated by two expression-defined members of one "
+    "nested container, one feeding the other: known finding K1 (the composition proof does not cover those managers; the run-time part does and reports K1)",
+    "the composition proof is stated for expression tasks; FunctionTask / LinearKnob actions are user code (deterministic, no call back into the manager)",
+    "the initial store of set_value affects only tasks in the schedule (start set = tasks depending on the location or an enclosing container: closure "
+    "clause of find_tasks) -- argued, not mechanised",
 ]
-BOUNDED = ["Cons (every expression-defined location equals its definition) is checked at run time against an independent pull-model "
-           "evaluator: all histories of length <=3 (quick) / 4 (thorough) over 24 operations, random histories to length 14, chains to 4000"]
-EXPLANATION = ("proved: the functions one assignment is composed of (ordering walk, index maintenance); the composition "
-               "argument 'order + closure + frame => consistency' is not yet discharged mechanically and is covered by "
-               "the bounded run-time check against a pull-model oracle")
-LEVEL_TEXT = ("Mixed: the callee contracts (toposort, find_taskids/find_tasks, register, unregister) are discharged for all "
-              "inputs; the top-level consistency clause is a bounded run-time contract check. One known finding (K1).")
+BOUNDED = ["the end-to-end clause 'after every assignment every location equals its definition' (incl. nested containers, in-place operators, "
+           "function and linear-knob tasks) is checked at run time against an independent pull-model evaluator: all histories of length <=3 (quick) / 4 "
+           "over 24 operations, random histories to length 14, chains to 4000, all 13 in-place operators"]
+EXPLANATION = ("proved: the ordering walk (iterative DFS, toposort, find_taskids/find_tasks), index maintenance (register/unregister), "
+               "set_value (definition step, one store, runs == schedule), ExprTask.run (evaluate, one store) and the composition step: "
+               "Manager.run_tasks on a schedule satisfying the find_tasks postcondition leaves EVERY registered expression task consistent "
+               "(target location == expression evaluated on the current data), given consistency outside the schedule, IdxWF, the frame axioms and Acyc")
+LEVEL_TEXT = ("Mixed: all functions of the update path and the composition step are discharged for all inputs (under the stated frame axioms and "
+              "Acyc); the end-to-end consistency clause on real containers is a bounded run-time contract check. One known finding (K1).")
 LEVEL_NOTE = "Known finding K1 recorded in known_findings.json; statement exclusions taken as preconditions."
